@@ -389,6 +389,10 @@ func Rewrites() []RewriteOpts {
 		{Description: "every mapping, level list and operand list rotated", Rotate: true},
 		{Description: "prefix renamed", Prefix: "zz-9"},
 		{Description: "second prefix bound to the same namespace", AltPrefix: "alt"},
+		// a declared prefix takes precedence over a built-in prefix of the same name
+		{Description: "prefix renamed to the name of the built-in prefix apiExt (declared with the profile's own namespace)", Prefix: "apiExt"},
+		{Description: "prefix renamed to the name of the built-in prefix core (declared with the profile's own namespace)", Prefix: "core"},
+		{Description: "second prefix named like the built-in prefix shacl, bound to the same namespace", AltPrefix: "shacl"},
 		{Description: "single-quoted scalars, flow style, comments, 4-space indent", Style: Style{Quote: "single", Flow: true, Comments: true, Indent: 4}},
 		{Description: "plain scalars, reversed, renamed prefix", Reverse: true, Prefix: "q", Style: Style{Quote: "plain", Indent: 3}},
 		{Description: "double-quoted keys and scalars, rotated, two prefixes", Rotate: true, AltPrefix: "e2", Style: Style{Quote: "double", Comments: true, Indent: 2}},
